@@ -46,6 +46,7 @@ type httpWorld struct {
 	// the plugin terminates HTTP on a work connection wrapped in the encryption/compression stream readers
 	pluginStreamWrapped bool
 	timeout             int  // vhostHTTPTimeout of the run (seconds)
+	tunnelMax           int  // byte budget of one tunnel direction
 	frontVhost          bool // the http vhost of frps (with its idle work-connection pool) is in front of the plugin
 	twoRoutes           bool // a second proxy on the same host, routed by http user "alice", with its own backend
 }
@@ -74,6 +75,18 @@ func worldHTTP(w *World) {
 		vport = 7000
 	}
 	timeout := w.KnobPick("vhost_http_timeout", 2, 5, 60)
+	// a short response-header timeout on a slow simulated path (small window x long latency, or byte-sized segments)
+	// makes a prompt backend look slow whenever several exchanges share the path: frps then answers 504 as configured.
+	// Short timeouts are only drawn together with a path that can carry the run's traffic well within them.
+	if cfg := w.Net.Cfg(); timeout < 60 {
+		slow := cfg.MSS < 64
+		if lat := cfg.BaseLatency + cfg.Jitter; lat > 0 && float64(cfg.Window)/(2*lat.Seconds())*float64(timeout) < 1<<20 {
+			slow = true
+		}
+		if slow {
+			timeout = 60
+		}
+	}
 	hw.timeout = timeout
 	tcpMux := w.KnobBool("tcp_mux", 65)
 	scfg := map[string]any{
@@ -198,13 +211,18 @@ func worldHTTP(w *World) {
 			rate = thr
 		}
 	}
-	if capB := int(rate * float64(timeout) / 4); maxBody > capB {
-		maxBody = capB
-		if maxBody < 1024 {
-			maxBody = 1024
-		}
-	}
+	// All connections and tunnels of the run share that path (with stream multiplexing: one transport connection),
+	// so the budget is divided among them.
 	nconn := w.KnobPick("nconns", 1, 2, 4)
+	ntun := w.KnobPick("tunnels", 0, 1, 2, 3)
+	capB := int(rate * float64(timeout) / float64(2*(nconn+ntun+1)))
+	if capB < 512 {
+		capB = 512
+	}
+	if maxBody > capB {
+		maxBody = capB
+	}
+	hw.tunnelMax = capB
 	var wg sync.WaitGroup
 	cid := 0
 	for ci := 0; ci < nconn; ci++ {
@@ -223,7 +241,6 @@ func worldHTTP(w *World) {
 		})
 	}
 	// protocol upgrade and CONNECT through the vhost port, concurrently with the rest
-	ntun := w.KnobPick("tunnels", 0, 1, 2, 3)
 	for i := 0; i < ntun; i++ {
 		t := hw.newTunnel(i, w.KnobBool(fmt.Sprintf("tunnel%d.connect", i), 50))
 		ip := fmt.Sprintf("10.0.3.%d", 60+i)
